@@ -49,7 +49,7 @@ from partitura.utils import (
     update_note_ids_after_unfolding,
     clef_sign_to_int,
 )
-from partitura.utils.generic import interp1d
+from partitura.utils.generic import interp1d, deepcopy_linked
 from partitura.utils.music import transpose_note, step2pc
 from partitura.utils.globals import (
     INT_TO_ALT,
@@ -5327,13 +5327,10 @@ def unfold_part_maximal(score: ScoreLike, update_ids=True, ignore_leaps=True):
 
     """
     if isinstance(score, Score):
-        # Copy needs to be deep, otherwise the recursion limit will be exceeded
-        old_recursion_depth = sys.getrecursionlimit()
-        sys.setrecursionlimit(10000)
-        # Deep copy of score
-        new_score = deepcopy(score)
-        # Reset recursion limit to previous value to avoid side effects
-        sys.setrecursionlimit(old_recursion_depth)
+        # Deep copy of score (the depth of the copy grows with the timeline)
+        new_score = deepcopy_linked(
+            score, sum(len(part._points) for part in score.parts)
+        )
         new_partlist = list()
         for score in new_score.parts:
             unfolded_part = unfold_part_maximal(
@@ -5371,13 +5368,10 @@ def unfold_part_minimal(score: ScoreLike):
 
     """
     if isinstance(score, Score):
-        # Copy needs to be deep, otherwise the recursion limit will be exceeded
-        old_recursion_depth = sys.getrecursionlimit()
-        sys.setrecursionlimit(10000)
-        # Deep copy of score
-        unfolded_score = deepcopy(score)
-        # Reset recursion limit to previous value to avoid side effects
-        sys.setrecursionlimit(old_recursion_depth)
+        # Deep copy of score (the depth of the copy grows with the timeline)
+        unfolded_score = deepcopy_linked(
+            score, sum(len(part._points) for part in score.parts)
+        )
         new_partlist = list()
         for part in unfolded_score.parts:
             unfolded_part = unfold_part_minimal(part)
